@@ -11,6 +11,7 @@ import (
 	"sort"
 	"strconv"
 	"strings"
+	"sync"
 	"time"
 
 	sdk "github.com/cosmos/cosmos-sdk/types"
@@ -44,18 +45,25 @@ type Cfg struct {
 	MaxTunnels int               `json:"max_tunnels"`
 	MaxBlocks  int               `json:"max_blocks"`
 	Depth      int               `json:"depth"`
+	// MaxRaises > 0 puts governance raises of the minimum deposit (real MsgUpdateParams) into the
+	// alphabet: "+1" on the first denom and, if RaiseDenom is set, "+denom" (one more required denom).
+	MaxRaises  int    `json:"max_raises,omitempty"`
+	RaiseDenom string `json:"raise_denom,omitempty"`
+	// Genesis: after every accepted transition the tunnel genesis is exported and imported into a
+	// fresh application, and the invariants are checked on the imported state.
+	Genesis bool `json:"genesis_roundtrip,omitempty"`
 }
 
 type spec struct {
-	cfg    Cfg
-	min    coins
-	denoms []string // denoms of the minimum deposit, sorted
+	cfg Cfg
+	min coins // minimum deposit of the base state
+
+	mu      sync.Mutex
+	imports map[int]*engine.World // per search world: the fresh application genesis is imported into
 }
 
 func newSpec(c Cfg) *spec {
-	s := &spec{cfg: c, min: parseCoins(c.MinDeposit)}
-	s.denoms = s.min.denoms()
-	return s
+	return &spec{cfg: c, min: parseCoins(c.MinDeposit), imports: map[int]*engine.World{}}
 }
 
 func (s *spec) Config() any { return s.cfg }
@@ -204,10 +212,12 @@ type model struct {
 	Tunnels []*mTunnel
 	Bal     map[string]coins // wallets of the actors
 	Blocks  int
+	Min     coins // current minimum deposit (changes only by a raise event)
+	Raises  int
 }
 
 func (m *model) Clone() engine.Model {
-	c := &model{Bal: map[string]coins{}, Blocks: m.Blocks}
+	c := &model{Bal: map[string]coins{}, Blocks: m.Blocks, Min: m.Min.clone(), Raises: m.Raises}
 	for a, b := range m.Bal {
 		c.Bal[a] = b.clone()
 	}
@@ -232,7 +242,7 @@ func sortedKeys[V any](m map[string]V) []string {
 
 func (m *model) Key() string {
 	var sb strings.Builder
-	fmt.Fprintf(&sb, "b%d|", m.Blocks)
+	fmt.Fprintf(&sb, "b%d|min=%s|r%d|", m.Blocks, m.Min, m.Raises)
 	for _, a := range sortedKeys(m.Bal) {
 		fmt.Fprintf(&sb, "%s=%s|", a, m.Bal[a])
 	}
@@ -304,7 +314,7 @@ func (s *spec) Build(w *engine.World) (sdk.Context, engine.Model) {
 	mustOK("update params", w.Tx(ctx, 0, tunneltypes.NewMsgUpdateParams(k.GetAuthority(), p)))
 
 	// wallets: small balances so that "all" and "all+1" are part of a small alphabet
-	m := &model{Bal: map[string]coins{}}
+	m := &model{Bal: map[string]coins{}, Min: s.min.clone()}
 	for _, a := range s.cfg.Actors {
 		want := parseCoins(s.cfg.Balances[a])
 		acc := actor(a)
@@ -329,8 +339,16 @@ func (s *spec) Build(w *engine.World) (sdk.Context, engine.Model) {
 	if s.cfg.Route == "tss-ready" {
 		ctx = s.buildSigningGroup(w, ctx)
 	}
+	if s.cfg.Genesis {
+		// a second, untouched application per search world: the import target (Build runs serialised)
+		s.mu.Lock()
+		if s.imports[w.ID] == nil {
+			s.imports[w.ID] = engine.NewWorld()
+		}
+		s.mu.Unlock()
+	}
 	for _, pt := range s.cfg.Pre {
-		dep := s.amount(pt.Deposit, coins{})
+		dep := s.amount(pt.Deposit, coins{}, s.min)
 		mustOK("pre-create", w.Tx(ctx, 0, s.createMsg(pt.Creator, dep)))
 		id := k.GetTunnelCount(ctx)
 		t := &mTunnel{ID: id, Creator: pt.Creator, Deposits: map[string]coins{}}
@@ -359,22 +377,23 @@ func (s *spec) afterCreate(w *engine.World, ctx sdk.Context, id uint64) {
 }
 
 // amount resolves an amount kind against a reference quantity ("all" = ref).
-func (s *spec) amount(kind string, ref coins) coins {
-	d0 := s.denoms[0]
+func (s *spec) amount(kind string, ref coins, min coins) coins {
+	denoms := min.denoms()
+	d0 := denoms[0]
 	switch kind {
 	case "0":
 		return coins{}
 	case "1":
 		return coins{d0: 1}
 	case "1b":
-		if len(s.denoms) < 2 {
+		if len(denoms) < 2 {
 			return coins{}
 		}
-		return coins{s.denoms[1]: 1}
+		return coins{denoms[1]: 1}
 	case "min-1":
-		return s.min.minus(coins{d0: 1})
+		return min.minus(coins{d0: 1})
 	case "min":
-		return s.min.clone()
+		return min.clone()
 	case "all":
 		return ref.clone()
 	case "all+1":
@@ -387,10 +406,10 @@ func (s *spec) amount(kind string, ref coins) coins {
 
 var moveKinds = []string{"1", "1b", "min-1", "min", "all", "all+1"}
 
-func (s *spec) accepted(c coins) coins {
+func (s *spec) accepted(c coins, min coins) coins {
 	// the part of a wallet that is in denominations of the minimum deposit
 	o := coins{}
-	for _, d := range s.denoms {
+	for _, d := range min.denoms() {
 		if c[d] != 0 {
 			o[d] = c[d]
 		}
@@ -405,7 +424,7 @@ func (s *spec) Enabled(w *engine.World, ctx sdk.Context, mm engine.Model, depth 
 		for _, a := range s.cfg.Actors {
 			seen := map[string]bool{}
 			for _, kd := range []string{"0", "min-1", "min", "all+1"} {
-				amt := s.amount(kd, s.accepted(m.Bal[a]))
+				amt := s.amount(kd, s.accepted(m.Bal[a], m.Min), m.Min)
 				if seen[amt.String()] {
 					continue
 				}
@@ -426,7 +445,7 @@ func (s *spec) Enabled(w *engine.World, ctx sdk.Context, mm engine.Model, depth 
 				continue
 			}
 			for _, op := range []string{"dep", "wd"} {
-				ref := s.accepted(m.Bal[a])
+				ref := s.accepted(m.Bal[a], m.Min)
 				if op == "wd" {
 					ref = coins{}
 					if t != nil {
@@ -438,7 +457,7 @@ func (s *spec) Enabled(w *engine.World, ctx sdk.Context, mm engine.Model, depth 
 					if t == nil && kd != "1" {
 						continue
 					}
-					amt := s.amount(kd, ref)
+					amt := s.amount(kd, ref, m.Min)
 					if amt.isZero() || seen[amt.String()] {
 						continue
 					}
@@ -462,6 +481,12 @@ func (s *spec) Enabled(w *engine.World, ctx sdk.Context, mm engine.Model, depth 
 			for _, op := range []string{"act", "deact", "trig"} {
 				evs = append(evs, fmt.Sprintf("%s:%d:%s", op, id, a))
 			}
+		}
+	}
+	if m.Raises < s.cfg.MaxRaises {
+		evs = append(evs, "raise:+1")
+		if d := s.cfg.RaiseDenom; d != "" && m.Min[d] == 0 {
+			evs = append(evs, "raise:+denom")
 		}
 	}
 	if m.Blocks < s.cfg.MaxBlocks {
@@ -510,7 +535,7 @@ func (s *spec) Step(w *engine.World, ctx sdk.Context, mm engine.Model, ev string
 		if t == nil {
 			return "no-tunnel"
 		}
-		if t.total().covers(s.min) {
+		if t.total().covers(m.Min) {
 			return "covered"
 		}
 		return "below-min"
@@ -534,7 +559,7 @@ func (s *spec) Step(w *engine.World, ctx sdk.Context, mm engine.Model, ev string
 	switch info.kind {
 	case "create":
 		info.by = parts[1]
-		dep := s.amount(parts[2], s.accepted(m.Bal[info.by]))
+		dep := s.amount(parts[2], s.accepted(m.Bal[info.by], m.Min), m.Min)
 		before := k.GetTunnelCount(ctx)
 		res := w.Tx(ctx, 0, s.createMsg(info.by, dep))
 		info.accepted = res.OK()
@@ -565,7 +590,7 @@ func (s *spec) Step(w *engine.World, ctx sdk.Context, mm engine.Model, ev string
 		t := m.tunnel(info.tid)
 		acc := actor(info.by)
 		if info.kind == "dep" {
-			amt := s.amount(parts[3], s.accepted(m.Bal[info.by]))
+			amt := s.amount(parts[3], s.accepted(m.Bal[info.by], m.Min), m.Min)
 			res := w.Tx(ctx, 0, tunneltypes.NewMsgDepositToTunnel(info.tid, amt.sdk(), acc.Address.String()))
 			info.accepted = res.OK()
 			class := "affordable"
@@ -590,7 +615,7 @@ func (s *spec) Step(w *engine.World, ctx sdk.Context, mm engine.Model, ev string
 			if t != nil {
 				own = t.Deposits[info.by]
 			}
-			amt := s.amount(parts[3], own)
+			amt := s.amount(parts[3], own, m.Min)
 			res := w.Tx(ctx, 0, tunneltypes.NewMsgWithdrawFromTunnel(info.tid, amt.sdk(), acc.Address.String()))
 			info.accepted = res.OK()
 			class := "within-own-deposit"
@@ -622,7 +647,7 @@ func (s *spec) Step(w *engine.World, ctx sdk.Context, mm engine.Model, ev string
 			if res.OK() {
 				t.Deposits[info.by] = own.minus(amt)
 				m.Bal[info.by] = m.Bal[info.by].plus(amt)
-				info.belowMin = !t.total().covers(s.min)
+				info.belowMin = !t.total().covers(m.Min)
 				if pre[info.tid] {
 					if info.belowMin {
 						st.Saw("wd-from-active:to-below-min")
@@ -650,20 +675,41 @@ func (s *spec) Step(w *engine.World, ctx sdk.Context, mm engine.Model, ev string
 		info.accepted = res.OK()
 		st.Outcome = fmt.Sprintf("%s:%s:%s:%s:%s", info.kind, role(t, info.by), cov(t), onoff(pre[info.tid]), res.ErrName())
 		st.Saw(fmt.Sprintf("%s:%s:%s:%s:%s", info.kind, role(t, info.by), cov(t), onoff(pre[info.tid]), verdict(res)))
-		info.legalAct = info.kind == "act" && t != nil && t.Creator == info.by && t.total().covers(s.min)
+		info.legalAct = info.kind == "act" && t != nil && t.Creator == info.by && t.total().covers(m.Min)
 		if res.OK() {
 			switch {
 			case t == nil:
 				st.Violate(info.kind+"-accepted:no-such-tunnel", "%s accepted", ev)
 			case t.Creator != info.by:
 				st.Violate(info.kind+"-accepted:not-the-creator", "%s accepted although the creator of tunnel %d is %s", ev, info.tid, t.Creator)
-			case info.kind == "act" && !t.total().covers(s.min):
-				st.Violate("act-accepted:total-deposit-below-minimum", "%s accepted with total deposit %s < minimum %s", ev, t.total(), s.min)
+			case info.kind == "act" && !t.total().covers(m.Min):
+				st.Violate("act-accepted:total-deposit-below-minimum", "%s accepted with total deposit %s < minimum %s", ev, t.total(), m.Min)
 			case info.kind == "trig" && !pre[info.tid]:
 				st.Violate("trig-accepted:tunnel-not-flagged-active", "%s accepted on an inactive tunnel", ev)
 			}
 			if len(st.Violations) > 0 {
 				return ctx, st
+			}
+		}
+	case "raise":
+		// governance raises the minimum deposit through the real MsgUpdateParams handler; the statement
+		// ties activation and withdrawal-deactivation to the minimum in force, nothing else may change
+		newMin := m.Min.plus(coins{m.Min.denoms()[0]: 1})
+		if parts[1] == "+denom" {
+			newMin = m.Min.plus(coins{s.cfg.RaiseDenom: 1})
+		}
+		p := k.GetParams(ctx)
+		p.MinDeposit = newMin.sdk()
+		res := w.Tx(ctx, 0, tunneltypes.NewMsgUpdateParams(k.GetAuthority(), p))
+		info.accepted = res.OK()
+		st.Outcome = fmt.Sprintf("raise:%s:%s", parts[1], res.ErrName())
+		if res.OK() {
+			m.Min = newMin
+			m.Raises++
+			for _, t := range m.Tunnels {
+				if pre[t.ID] && !t.total().covers(m.Min) {
+					st.Saw("raise:leaves-active-tunnel-below-minimum")
+				}
 			}
 		}
 	case "block":
@@ -715,6 +761,9 @@ func (s *spec) Step(w *engine.World, ctx sdk.Context, mm engine.Model, ev string
 
 	s.checkLedger(w, ctx, m, &st, info)
 	s.checkFlags(w, ctx, m, &st, pre, info)
+	if s.cfg.Genesis && info.accepted && len(st.Violations) == 0 {
+		s.checkGenesisRoundTrip(w, ctx, m, &st)
+	}
 	return ctx, st
 }
 
@@ -819,7 +868,7 @@ func (s *spec) checkFlags(w *engine.World, ctx sdk.Context, m *model, st *engine
 			case t.Creator != info.by:
 				st.Violate("act-accepted:not-the-creator", "tunnel %d activated by %s, creator %s", t.ID, info.by, t.Creator)
 			case !info.legalAct:
-				st.Violate("act-accepted:total-deposit-below-minimum", "tunnel %d activated with total %s < %s", t.ID, t.total(), s.min)
+				st.Violate("act-accepted:total-deposit-below-minimum", "tunnel %d activated with total %s < %s", t.ID, t.total(), m.Min)
 			}
 		}
 		if mine && info.accepted {
@@ -834,7 +883,7 @@ func (s *spec) checkFlags(w *engine.World, ctx sdk.Context, m *model, st *engine
 				}
 			case "wd":
 				if info.belowMin && f1 {
-					st.Violate("withdrawal-below-minimum-left-tunnel-active", "tunnel %d: total %s < minimum %s but still active", t.ID, t.total(), s.min)
+					st.Violate("withdrawal-below-minimum-left-tunnel-active", "tunnel %d: total %s < minimum %s but still active", t.ID, t.total(), m.Min)
 				}
 				if info.belowMin && f0 && !f1 {
 					st.Saw("wd-below-min:deactivated")
@@ -871,9 +920,14 @@ func configs(quick bool) []Cfg {
 			Balances: map[string]string{"A": "4uband", "B": "3uband"},
 			Pre:      []PreTunnel{{"A", "min"}}, MaxTunnels: 2, MaxBlocks: 2, Depth: 5},
 	}
+	// genesis round trip: states reached by the alphabet plus governance raises of the minimum deposit
+	// (so that active tunnels below the minimum in force exist), each exported and imported afresh
+	gen := Cfg{Name: "genesis-roundtrip", MinDeposit: "3uband", BaseFee: "", Route: "tss", Actors: ab,
+		Balances: map[string]string{"A": "4uband", "B": "3uband"},
+		Pre:      []PreTunnel{{"A", "min"}, {"B", "0"}}, MaxTunnels: 2, MaxBlocks: 1, MaxRaises: 1, Genesis: true, Depth: 5}
 	if quick {
 		q[0].Depth = 6
-		return q
+		return append(q, gen)
 	}
 	// thorough: two levels deeper with two end-blocks; the two small single-denom configurations run
 	// last and until the frontier is empty (with the number of blocks bounded their reachable state
@@ -893,6 +947,11 @@ func configs(quick bool) []Cfg {
 			Balances: map[string]string{"A": "3uband,2uusd", "B": "2uband,3uusd", "C": "1uband,1uusd"},
 			Pre:      []PreTunnel{{"A", "min"}, {"C", "0"}}, MaxTunnels: 2, MaxBlocks: 2, Depth: 5},
 	)
+	gen.Depth, gen.MaxRaises, gen.MaxBlocks = 6, 2, 2
+	t = append(t, gen,
+		Cfg{Name: "genesis-roundtrip-2denom", MinDeposit: "2uband", BaseFee: "1uband", Route: "ibc", Actors: ab,
+			Balances: map[string]string{"A": "3uband,1uusd", "B": "2uband,1uusd"},
+			Pre:      []PreTunnel{{"A", "min"}}, MaxTunnels: 2, MaxBlocks: 1, MaxRaises: 2, RaiseDenom: "uusd", Genesis: true, Depth: 5})
 	for _, i := range []int{0, 1} {
 		c := q[i]
 		c.Depth = 14
@@ -911,7 +970,8 @@ func init() {
 				"Tx seam = ValidateBasic + message-router handler in a cache context (ante chain not executed here; see C02)",
 				"deposit and create acceptance are taken as given (the statement does not fix them); their effects on the three ledgers and on the wallet are checked",
 				"activation acceptance is checked in the stated direction only (accepted => creator and total >= minimum)",
-				"the minimum deposit parameter is constant along a path (MsgUpdateParams is not in the alphabet)",
+				"the minimum deposit changes only in the genesis-roundtrip configurations (raise events through the real MsgUpdateParams); the statement is read against the minimum in force: a raise does not by itself deactivate a tunnel",
+				"genesis round trip: TunnelKeeper ExportGenesis -> InitGenesis into a clean branch of a fresh application; the module account's bank balance (carried by the bank genesis, not the tunnel genesis) is supplied from the source state; fee payer accounts and latest prices are not carried",
 				"routes never deliver in the tss/ibc configurations (no signing group / no channel): an active tunnel is observed as processed through its produce_packet_fail or deactivate_tunnel end-block event",
 			}
 			r.Required = required(r.Quick())
@@ -963,6 +1023,8 @@ func required(quick bool) []string {
 		"trig:creator:covered:active:accepted", "trig:creator:covered:inactive:rejected", "trig:stranger:covered:active:rejected",
 		"wd-from-active:to-below-min", "wd-from-active:still-covered", "wd-below-min:deactivated",
 		"block:active=1", "block:active=2",
+		"raise:leaves-active-tunnel-below-minimum", "genesis-roundtrip:active=0", "genesis-roundtrip:active=1",
+		"genesis-roundtrip:active-tunnel-below-current-minimum",
 		"endblock:produce_packet_fail", "endblock:produce_packet_success", "endblock:deactivate_tunnel", "endblock:active-but-not-due",
 	}
 }
